@@ -5,6 +5,28 @@ BUFMODES_QUICK = [0, 1, 2, 4]          # nil, fresh, used len 0, used len 2
 BUFMODES_THOROUGH = [0, 1, 2, 3, 4, 14]  # ... used len 1, len 12 (> any depth reachable at these N)
 
 
+def _corpus_jobs(c, harness, extra, opts=None, maxlen=160, limit=None):
+    """translator validation on the repository's own test inputs: the JSONTestSuite files (<= maxlen bytes)
+    are run through the same harness with all bytes concrete; the encoding must agree with the reference
+    on each (a disagreement the real build does not reproduce is reported as an encoder mismatch)"""
+    import glob
+    import os
+    files = sorted(glob.glob('/repo/testdata/jsontestsuite/*.json'))
+    n = 0
+    for f in files:
+        try:
+            b = open(f, 'rb').read()
+        except OSError:
+            continue
+        if len(b) > maxlen:
+            continue
+        c.add(Job(harness, [('cbytes', b)] + list(extra), label='%s(%s)' % (harness, os.path.basename(f)), weight=1, opts=dict(opts or {}, nsamples=0)))
+        n += 1
+        if limit and n >= limit:
+            break
+    return n
+
+
 def _depth_jobs(c, harness, ND, modes, D=3):
     """the same harness with the nesting limit scaled from 10,000 to D in the code and in the
     reference, so that nesting up to and beyond the limit is inside the bound"""
@@ -44,8 +66,10 @@ def check_C01(tier, nproc=None):
     _number_jobs(c, 'vH_C01')
     ND = 8 if tier == "quick" else 10
     _depth_jobs(c, 'vH_C01', ND, [0, 4, 14])
+    ncorpus = _corpus_jobs(c, 'vH_C01', [('int', 4)], limit=(40 if tier == 'quick' else None))
     c.bounds = {'N': N, 'buffer_modes': modes, 'meaning': 'every byte string of length <= N; Buffer nil / fresh / used with arbitrary contents',
-                'depth_limit': 'all strings <= %d with the limit scaled to 3 (nesting up to and beyond the limit), Buffer nil / used len 2 / used len 12' % ND}
+                'depth_limit': 'all strings <= %d with the limit scaled to 3 (nesting up to and beyond the limit), Buffer nil / used len 2 / used len 12' % ND,
+                'concrete_corpus_inputs': ncorpus}
     c.must_reach = ['C01.compared']
     c.assumptions = ['reference vRefValid (harness/zz_verif_ref.go) is RFC 8259; validated natively against encoding/json',
                      'go/ssa lowering and the gosym encoder model the compiled code (validated by native replay of samples)',
@@ -64,7 +88,8 @@ def check_C02(tier, nproc=None):
     _number_jobs(c, 'vH_C02')
     ND = 8 if tier == "quick" else 10
     _depth_jobs(c, 'vH_C02', ND, [0, 4, 14])
-    c.bounds = {'N': N, 'buffer_modes': modes, 'depth_limit': 'all strings <= %d with the limit scaled to 3' % ND}
+    ncorpus = _corpus_jobs(c, 'vH_C02', [('int', 0)], limit=(40 if tier == 'quick' else None))
+    c.bounds = {'N': N, 'buffer_modes': modes, 'depth_limit': 'all strings <= %d with the limit scaled to 3' % ND, 'concrete_corpus_inputs': ncorpus}
     c.must_reach = ['C02.compared']
     c.assumptions = ['reference vRefSkip is the one-pass RFC 8259 prefix reading; validated natively against encoding/json Decoder offsets',
                      'encoder validated by native replay of samples', 'amd64']
@@ -158,7 +183,7 @@ def check_C09(tier, nproc=None):
 def check_C10(tier, nproc=None):
     c = Check('C10', tier)
     N = 5 if tier == 'quick' else 6
-    NS = 6 if tier == 'quick' else 8
+    NS = 6 if tier == 'quick' else 7
     for n in range(0, N + 1):
         for obj in (False, True):
             for m in ([0, 4] if tier == 'quick' else [0, 2, 4]):
@@ -339,7 +364,8 @@ def check_C03(tier, nproc=None):
         if which != 1:
             for t in DEPTH_TREE_TEMPLATES:
                 c.add(Job('vH_C03', [('tmpl', 'd', t), ('int', which)], weight=4 ** 6, opts=dict(o, scale_depth=3)))
-    c.bounds = {'N': N, 'templates': [_tmplstr([((x[1], 'hex') if isinstance(x, tuple) and x[0] == 'hexd' else x) for x in t]) for t in TREE_TEMPLATES],
+    ncorpus = _corpus_jobs(c, 'vH_C03', [('int', 0)], opts=o, limit=(30 if tier == 'quick' else None))
+    c.bounds = {'N': N, 'concrete_corpus_inputs': ncorpus, 'templates': [_tmplstr([((x[1], 'hex') if isinstance(x, tuple) and x[0] == 'hexd' else x) for x in t]) for t in TREE_TEMPLATES],
                 'depth_limit': 'templates %s with the limit scaled to 3' % [_tmplstr(t) for t in DEPTH_TREE_TEMPLATES]}
     c.must_reach = ['C03.returned', 'C03.success']
     _std(c, ['number leaves: fp.ParseJSONFloatPrefix replaced by the contract vFloatStub (literal delimited by the reference grammar, value and overflow verdict uninterpreted functions of the literal bytes); established by C04',
